@@ -6,7 +6,10 @@ CONSTANTS NC = 3
  MaxSteps = 0
  RestartAnywhere = FALSE
  Touch = {0}
+ VMaps = {100}
+ Persist = FALSE
+ MaxChg = 3
  Dev = {}
-INVARIANTS TypeOK TopIsFullSort
+INVARIANTS TypeOK TopIsFullSort FileOK
 PROPERTIES RestartKeepsTop
 CHECK_DEADLOCK FALSE
